@@ -147,6 +147,9 @@ func run(pr *rules.Property, tier, repo, root, onlyRule, onlyKey string) (code i
 		}
 		pr.Run(c)
 	}
+	if tier == "thorough" && onlyRule == "" && os.Getenv("ORYX_NO_SEEDED") == "" {
+		selfValidate(pr.ID, repo, root, r)
+	}
 	if onlyRule != "" {
 		for _, o := range r.Obs {
 			if o.Rule == onlyRule && o.Key == onlyKey {
